@@ -3,7 +3,7 @@
 # (evidence goes to .build/scratch_evidence), undo the change.  Never leaves /repo modified.
 cd "$(dirname "$0")/.." || exit 2
 sd="$1"; prop="${2:-${sd%%_*}}"
-git -C /repo apply "seeded/$sd/patch.diff" || exit 2
+git -C /repo apply "$(pwd)/seeded/$sd/patch.diff" || exit 2
 VERIF_SCRATCH=1 ./check "$prop" quick; rc=$?
 git -C /repo checkout -- .
 echo "== seed $sd property $prop rc=$rc"
